@@ -1194,17 +1194,18 @@ impl NodeId {
     pub fn remove_subtree<T>(self, arena: &mut Arena<T>) {
         self.detach(arena);
 
-        // use a preorder traversal to remove node.
+        // use a postorder traversal to remove nodes: a node is unlinked and
+        // freed once it has become a leaf, so that no removed node keeps links.
         let mut cursor = Some(self);
         while let Some(id) = cursor {
-            arena.free_node(id);
             let node = &arena[id];
-            cursor = node.first_child.or(node.next_sibling).or_else(|| {
-                id.ancestors(arena) // traverse ancestors upwards
-                    .skip(1) // skip the starting node itself
-                    .find(|n| arena[*n].next_sibling.is_some()) // first ancestor with a sibling
-                    .and_then(|n| arena[n].next_sibling) // the sibling is the new cursor
-            });
+            if let Some(first_child) = node.first_child {
+                cursor = Some(first_child);
+                continue;
+            }
+            cursor = node.next_sibling.or(node.parent);
+            id.detach(arena);
+            arena.free_node(id);
         }
     }
 
